@@ -1,9 +1,62 @@
-(* Props/C09.v -- property C09 (statements proved so far; see DESIGN.md section 7 C09). *)
-From Coq Require Import NArith List Bool.
-From NRF Require Import Env.Radio Env.RadioFacts.
+(* Props/C09.v -- property C09: `with` restores an object's complete radio configuration.
+   Only statements, each closed by `exact`.
+
+   Worlds: any number of radios with any traffic (Env/World.v).  `WB me` is radio number
+   `me` of the world as the driver's bus; cview is the configuration of a radio (all
+   registers, addresses, CE).  A driver object is its record of cached attributes `d`;
+   several objects on one radio are several records used with the same `me`. *)
+From Coq Require Import ZArith NArith List Bool.
+From NRF Require Import Env.Radio Env.World Env.WorldFacts Env.CfgFacts Drv.RF24 Drv.RF24Sim
+     Drv.RF24SimOps Drv.CfgEval Drv.CtxFacts.
 Import ListNotations.
-Local Open Scope N_scope.
-Theorem C09_status_is_pre_command : forall r cmd data,
-  hd 0 (snd (spi r (cmd :: data))) = status r.
-Proof. exact spi_status_first. Qed.
-Print Assumptions C09_status_is_pre_command.
+Local Open Scope Z_scope.
+
+(* Leaving a block powers the radio down with CE low -- from ANY driver state and ANY
+   radio state, and touches no other configuration register and no other radio. *)
+Theorem C09_exit : forall me d w,
+  (me < length (radios w))%nat -> WfC (cview (get_radio w me)) ->
+  exists d1 w1, exit (WB me) d w = (Ok tt, d1, w1)
+    /\ c_ce (cview (get_radio w1 me)) = false
+    /\ N.testbit (creg (cview (get_radio w1 me)) 0) 1 = false
+    /\ (forall a, a <> 0%N -> creg (cview (get_radio w1 me)) a = creg (cview (get_radio w me)) a)
+    /\ c_p0 (cview (get_radio w1 me)) = c_p0 (cview (get_radio w me))
+    /\ c_p1 (cview (get_radio w1 me)) = c_p1 (cview (get_radio w me))
+    /\ c_tx (cview (get_radio w1 me)) = c_tx (cview (get_radio w me))
+    /\ (forall j, j <> me -> cview (get_radio w1 j) = cview (get_radio w j)).
+Proof. exact exit_world. Qed.
+Print Assumptions C09_exit.
+
+(* Entering a block programs EVERY configuration register from the entering object's own
+   cached attributes (enter_regs d lists them: CONFIG with PWR_UP, RF_SETUP, EN_RXADDR,
+   DYNPD, EN_AA, FEATURE, SETUP_RETR, RX_ADDR_P2..5, RX_PW_P0..5, RF_CH, SETUP_AW; plus the
+   three 5-byte addresses), with CE low -- whatever state the radio was left in by other
+   objects (w is arbitrary), and without touching any other radio. *)
+Theorem C09_enter : forall me d w,
+  (me < length (radios w))%nat -> WfC (cview (get_radio w me)) -> DrvOk d ->
+  exists d1 w1, enter (WB me) d w = (Ok tt, d1, w1)
+    /\ Forall (fun av => creg (cview (get_radio w1 me)) (fst av) = snd av) (enter_regs d)
+    /\ c_p0 (cview (get_radio w1 me)) = d_pipe0 d
+    /\ c_p1 (cview (get_radio w1 me)) = d_pipe1 d
+    /\ c_tx (cview (get_radio w1 me)) = d_tx_address d
+    /\ c_ce (cview (get_radio w1 me)) = false
+    /\ d_config d1 = Z.lor (d_config d) 2
+    /\ d_pl_len d1 = map clamp_pl (d_pl_len d)
+    /\ DrvOk d1
+    /\ (forall j, j <> me -> cview (get_radio w1 j) = cview (get_radio w j)).
+Proof. exact enter_world. Qed.
+Print Assumptions C09_enter.
+
+(* Hence: the configuration an object's __enter__ establishes does not depend on the
+   radio's previous state at all -- two arbitrary worlds, same object. *)
+Theorem C09_enter_independent_of_radio_state : forall me d w w',
+  (me < length (radios w))%nat -> WfC (cview (get_radio w me)) ->
+  (me < length (radios w'))%nat -> WfC (cview (get_radio w' me)) -> DrvOk d ->
+  let w1 := snd (enter (WB me) d w) in
+  let w1' := snd (enter (WB me) d w') in
+  Forall (fun av => creg (cview (get_radio w1 me)) (fst av) = creg (cview (get_radio w1' me)) (fst av)) (enter_regs d)
+  /\ c_p0 (cview (get_radio w1 me)) = c_p0 (cview (get_radio w1' me))
+  /\ c_p1 (cview (get_radio w1 me)) = c_p1 (cview (get_radio w1' me))
+  /\ c_tx (cview (get_radio w1 me)) = c_tx (cview (get_radio w1' me))
+  /\ c_ce (cview (get_radio w1 me)) = c_ce (cview (get_radio w1' me)).
+Proof. exact enter_independent. Qed.
+Print Assumptions C09_enter_independent_of_radio_state.
